@@ -58,4 +58,7 @@ func init() {
 		New: "\t\tif argIdx < len(argVals) {\n\t\t\terr = iface.Write(argHandle, nil, argVals[argIdx])\n\t\t\tif err != nil {\n\t\t\t\treturn err\n\t\t\t}\n\t\t}\n\t\targVal, err := iface.Read(argHandle, nil)\n\t\tif err != nil {\n\t\t\treturn err\n\t\t}\n\t\tbuilder.Set(tla.MakeString(argVarName), argVal)\n", Expect: "Call:save-before-bind"})
 	seed(Seed{Name: "call-preamble-before-push", Prop: "C04", Rule: "CALL-ORDER", File: ai,
 		Old: "\tnewStackRecord := tla.MakeRecordFromMap(builder.Map())\n", New: "\tnewStackRecord := tla.MakeRecordFromMap(builder.Map())\n\tif err := proc.PreAmble(iface); err != nil {\n\t\treturn err\n\t}\n", Expect: "Call:"})
+	seed(Seed{Name: "run-returns-before-dispatch", Prop: "C01", Rule: "CS-ORDER", File: "distsys/mpcalctx.go",
+		Old: "\tfor {\n\t\t// all error control flow lives here, reached by \"continue\" from below\n\t\tswitch err {",
+		New: "\tfor {\n\t\tselect {\n\t\tcase <-ctx.requestExit:\n\t\t\treturn nil\n\t\tdefault:\n\t\t}\n\t\tswitch err {", Expect: "no-exit-before-outcome-examined"})
 }
